@@ -112,7 +112,6 @@ void ShapeConnectionPin::commonInitForShapeConnection(void)
     }
 
     m_router = m_shape->router();
-    m_shape->addConnectionPin(this);
     
     // Create a visibility vertex for this ShapeConnectionPin.
     VertID id(m_shape->id(), kShapeConnectionPin, 
@@ -131,6 +130,10 @@ void ShapeConnectionPin::commonInitForShapeConnection(void)
     {
         vertexVisibility(m_vertex, nullptr, true, true);
     }
+
+    // Register the pin only once it is complete: without transactions this
+    // reroutes the connectors attached to the pin's class straight away.
+    m_shape->addConnectionPin(this);
 }
 
 
@@ -150,7 +153,6 @@ ShapeConnectionPin::ShapeConnectionPin(JunctionRef *junction,
 {
     COLA_ASSERT(m_junction != nullptr);
     m_router = m_junction->router();
-    m_junction->addConnectionPin(this);
     
     // Create a visibility vertex for this ShapeConnectionPin.
     // XXX These IDs should really be uniquely identifiable in case there
@@ -165,6 +167,9 @@ ShapeConnectionPin::ShapeConnectionPin(JunctionRef *junction,
     {
         vertexVisibility(m_vertex, nullptr, true, true);
     }
+
+    // Register the pin only once it is complete (see above).
+    m_junction->addConnectionPin(this);
 }
 
 
